@@ -65,3 +65,9 @@ declare_fields('InstructionSet', _instructions_config='cfg', _macros_config='cfg
                _macro_mnemonics='set[str]', __dict='dict[str,InstructionBase]')
 
 declare_fields('ExpressionNode', value='union')
+
+declare_fields('ParsedOperand', _operand='Operand?', _bytecode='ByteCodePart?', _argument='ByteCodePart?', _operand_str='str')
+declare_fields('Instruction', _config='cfg', _variants='list[InstructionVariant]')
+declare_fields('InstructionVariant', _variant_config='cfg', _operand_parser='OperandParser?')
+declare_fields('OperandSet', _name='str', _config='cfg', _ordered_operand_list='list[Operand]')
+declare_fields('MatchedOperandSet', _operands='list[ParsedOperand]', _reverse_arg_order='bool', _reverse_op_bytecode_order='bool')
